@@ -62,7 +62,7 @@ func Enumerate(thorough bool, yield func(idx int, c Case)) int {
 					continue
 				}
 				for _, p2 := range []string{"commit", "rollback"} {
-					for _, holder := range []string{"same", "fresh"} {
+					for _, holder := range []string{"same", "fresh", "noidle"} {
 						yield(idx, Case{p, shape, "none", 0, p2, holder, ver})
 						idx++
 					}
@@ -149,6 +149,9 @@ func run(e *sys.Env, c Case) *runResult {
 			return faketc.Answer{Kind: k, Msg: "injected"}
 		}
 		return faketc.Answer{}
+	}
+	if c.Holder == "noidle" {
+		e.XA.SetMaxIdleConns(0) // database/sql closes the connection as soon as the statement / transaction is over
 	}
 	sys.TakeErrors()
 	hungBefore := faketc.Hung
@@ -252,6 +255,22 @@ func check(e *sys.Env, c Case, rr *runResult) (clause, detail string) {
 			if rr.hit && (strings.Contains(j.Err, "XAER_NOTA")) {
 				continue
 			}
+			// before 8.0.29 a prepared branch is invisible to other connections while its own connection lives: a process that
+			// never saw phase one legitimately gets XAER_NOTA (it must then not claim success - checked below)
+			if c.Holder == "fresh" && c.Version == "8.0.28" && strings.Contains(j.Err, "XAER_NOTA") {
+				continue
+			}
+			// the client's attempt to roll back after an injected failure may itself be refused (XA ROLLBACK of an ACTIVE branch)
+			if m := reXA.FindStringSubmatch(j.SQL); m != nil && rr.hit && strings.ToUpper(m[1]) == "ROLLBACK" {
+				continue
+			}
+			if m := reXA.FindStringSubmatch(j.SQL); m != nil && strings.ToUpper(m[1]) == "ROLLBACK" && strings.Contains(j.Err, "XAER_NOTA") {
+				for _, k := range rr.journal {
+					if k.G < j.G && k.Err == "" && k.SQL == j.SQL {
+						return "double-rollback", d("%q was issued again after it had succeeded (phase one rolled the branch back itself): %s; phase two answered %v", j.SQL, j.Err, rr.phase2)
+					}
+				}
+			}
 			return "illegal-xa-command", d("the database rejected %q: %s", j.SQL, j.Err)
 		}
 	}
@@ -292,6 +311,21 @@ func check(e *sys.Env, c Case, rr *runResult) (clause, detail string) {
 			firstG[id] = j.G
 		}
 		seqs[id] = append(seqs[id], verb)
+	}
+	// 2a. once a command of a branch failed, only XA END / XA ROLLBACK may follow for that branch (never PREPARE or COMMIT)
+	failedCmd := map[string]string{}
+	for _, j := range rr.journal {
+		m := reXA.FindStringSubmatch(j.SQL)
+		if m == nil {
+			continue
+		}
+		verb, id := strings.ToUpper(m[1]), m[2]
+		if prev, ok := failedCmd[id]; ok && (verb == "PREPARE" || verb == "COMMIT") {
+			return "continues-after-failure", d("XA %s for branch %s failed, yet XA %s was issued afterwards", prev, id, verb)
+		}
+		if j.Err != "" && (verb == "START" || verb == "END" || verb == "PREPARE") {
+			failedCmd[id] = verb
+		}
 	}
 	legal := regexp.MustCompile(`^START( END)?( PREPARE)?( COMMIT| ROLLBACK)?$`)
 	for _, id := range order {
@@ -370,6 +404,21 @@ func check(e *sys.Env, c Case, rr *runResult) (clause, detail string) {
 		}
 		if allRolledBack {
 			return "not-rolled-back", d("global rollback finished (%v) but the data is %s, expected %s", rr.phase2, biz(rr.post), biz(rr.pre))
+		}
+	}
+	// 5. no live connection is left inside an unfinished (ACTIVE / IDLE) branch: it would poison the pool and hold its locks
+	rollbackHit := false // the injected fault hit an XA ROLLBACK: then nothing the client does on that connection can finish the branch
+	for _, j := range rr.journal {
+		if m := reXA.FindStringSubmatch(j.SQL); m != nil && j.Injected && strings.ToUpper(m[1]) == "ROLLBACK" {
+			rollbackHit = true
+		}
+	}
+	for _, cs := range e.Srv.ConnStates() {
+		if rollbackHit {
+			break
+		}
+		if !cs.Closed && (cs.XAState == 1 || cs.XAState == 2) {
+			return "branch-left-open", d("connection %d is still inside an XA branch in state %d (1 active, 2 idle) after phase two (%v)", cs.ID, cs.XAState, rr.phase2)
 		}
 	}
 	if !(c.Holder == "fresh" && c.Version == "8.0.28") {
